@@ -136,6 +136,14 @@ def run(ctx, name, kind, **kw):
         for p in ps[kw["part"]:: kw["parts"]]:
             for a in range(p):
                 check_sqrt(ctx, a, p)
+        # order of calls: a shuffled pass mixing the three functions and moduli (module-level state must not matter)
+        mix = [(p, rng.randrange(p)) for p in ps[kw["part"]:: kw["parts"]] for _ in range(3)]
+        rng.shuffle(mix)
+        for p, a in mix:
+            check_sqrt(ctx, a, p, extra="shuffled")
+            if a % p:
+                check_inv(ctx, a - 2 * p, p, "inv.small")
+            check_jac(ctx, -a, p, [(p, 1)], "jacobi.small")
     elif kind == "sqrt_curve":
         c = lib.BY_NAME[kw["cname"]]
         d = lib.dom_of(c)
